@@ -517,6 +517,40 @@ func relatedOperands(c *h.Ctx) {
 			}
 		}
 	}
+	// the same for like_regex conditions that differ only in their flags
+	// (literal or not, case-sensitive or not): each has its own answer
+	for _, d := range []string{`{"s":"abc"}`, `{"s":"a.c"}`, `{"s":"A.C"}`, `{"s":["abc","a.c"]}`, `{"s":1}`} {
+		for _, lax := range []bool{true, false} {
+			e := &c11Eval{c: c, doc: d, vars: stdVars, lax: lax}
+			var atoms []tv
+			for _, pat := range []string{"a.c", "A.C", "^a", "c$"} {
+				for _, fl := range []string{"", "q", "i", "iq", "s", "qi"} {
+					txt := "$.s like_regex " + gQuote(pat)
+					if fl != "" {
+						txt += ` flag "` + fl + `"`
+					}
+					t, isErr, ok, _, _ := e.run(txt, false, false)
+					if ok && !isErr {
+						atoms = append(atoms, tv{txt, t, false})
+					}
+				}
+			}
+			for _, a := range atoms {
+				for _, b := range atoms {
+					idx++
+					if !c.Mine(idx) {
+						continue
+					}
+					ft := h.F("left", tvName(a), "right", tvName(b), "kind", "same-pattern")
+					e.judge("related.and", a.text+" && "+b.text, expectBin("&&", a, b), ft)
+					e.judge("related.or", a.text+" || "+b.text, expectBin("||", a, b), ft)
+					if a.text != b.text {
+						e.judge("related.or", "!("+a.text+") || ("+b.text+") is unknown", outcomeSet{vals: map[model.Tri]bool{model.Or(model.Not(a.t), model.FromBool(b.t == model.Unknown)): true}}, ft)
+					}
+				}
+			}
+		}
+	}
 	c.Sample("related", map[string]string{"expr": `$.a >= 1 && $.a <= 3`, "doc": `{"a":[0,5]}`, "expected": "true in lax mode: 5 is at least 1 and 0 is at most 3 - two separate existential comparisons"})
 }
 
